@@ -640,6 +640,12 @@ def run_shard(rec, seed, shard, tier):
     _OTHER_INTERPRETER = [] if shard["i"] % 4 in (0, 2) else None
     if shard["i"] == 1:
         arm_stack_exhaustion(rec)
+    if shard["i"] % 4 == 3:
+        from .. import real
+
+        real.hostile_prelude(rec)  # a past: checks made outside every scope are stateless whatever came before
+        real.toplevel_probes(rec, None, "after the hostile prelude")
+        real.temporaries_probe(rec, "C05")
     for k in range(CASES[tier]):
         key = f"{seed}/C05/{shard['i']}/{k}"
         run_program(rec, random.Random(key), key)
